@@ -738,6 +738,77 @@ func bigCapCase(c *ev.Case) {
 	}
 }
 
+// honestWrapCase (thorough): one goroutine really performs more than 2^32
+// push/pop pairs on a small ring, independent of any private field, so that the
+// 32-bit position counters wrap whatever their representation is. Nothing is in
+// flight at the probes, so Len/IsEmpty/IsFull must be exact, a full ring must
+// refuse a push, an empty one a pop, and values must come back in FIFO order.
+func honestWrapCase(c *ev.Case) {
+	req := []int{2, 3, 8}[c.Index%3]
+	r := ringz.NewSync[int](req)
+	capacity := r.Cap()
+	fill := c.Index % capacity
+	pairs := uint64(1)<<32 + uint64(1)<<18
+	for i := 0; i < fill; i++ {
+		if !r.Push(i) {
+			c.Failf("honest-wrap", "Push failed while filling a fresh ring")
+			return
+		}
+	}
+	bad := ""
+	c.Guard("honest-wrap loop", func() {
+		for i := uint64(0); i < pairs; i++ {
+			if !r.Push(int(i) + fill) {
+				bad = fmt.Sprintf("Push #%d returned false with nothing in flight on a ring holding %d of %d (Len()=%d)", i, fill, capacity, r.Len())
+				return
+			}
+			got, ok := r.Pop()
+			if !ok || got != int(i) {
+				bad = fmt.Sprintf("Pop #%d = (%d,%v) with nothing in flight, FIFO order wants (%d,true)", i, got, ok, i)
+				return
+			}
+			if i&0x3FFFFF == 0 || (i >= 1<<32-40 && i <= 1<<32+40) {
+				if r.Len() != fill || r.IsEmpty() != (fill == 0) || r.IsFull() {
+					bad = fmt.Sprintf("after pair #%d: Len=%d IsEmpty=%v IsFull=%v with %d of %d held and nothing in flight", i, r.Len(), r.IsEmpty(), r.IsFull(), fill, capacity)
+					return
+				}
+				for j := fill; j < capacity; j++ {
+					if !r.Push(-1) {
+						bad = fmt.Sprintf("after pair #%d: Push returned false at %d of %d", i, j, capacity)
+						return
+					}
+				}
+				if r.Push(-2) || !r.IsFull() || r.Len() != capacity {
+					bad = fmt.Sprintf("after pair #%d: a full ring accepted a push or misreports (Len=%d IsFull=%v)", i, r.Len(), r.IsFull())
+					return
+				}
+				for j := 0; j < capacity; j++ {
+					if _, ok := r.Pop(); !ok {
+						bad = fmt.Sprintf("after pair #%d: Pop returned false on a ring holding %d", i, capacity-j)
+						return
+					}
+				}
+				if _, ok := r.Pop(); ok || !r.IsEmpty() || r.Len() != 0 {
+					bad = fmt.Sprintf("after pair #%d: a drained ring misreports (Len=%d IsEmpty=%v)", i, r.Len(), r.IsEmpty())
+					return
+				}
+				for j := 0; j < fill; j++ {
+					r.Push(int(i) + 1 + j)
+				}
+			}
+		}
+	})
+	if bad != "" {
+		c.Failf("honest-wrap", "NewSync(%d) standing fill %d: %s", req, fill, bad)
+		return
+	}
+	c.Add("honest_wraps", 1)
+	c.Distinct(ev.Mix(uint64(req), uint64(fill), 31337))
+	if c.WantSample() {
+		c.Sample(fmt.Sprintf("honest-wrap: NewSync(%d), standing fill %d, %d real push/pop pairs by one goroutine across the 2^32 counter wrap", req, fill, pairs))
+	}
+}
+
 func main() {
 	r := ev.New("C01")
 	r.Rule("controlled: one case = (ring configuration, per-thread operation lists, schedule trace) drawn from the seed; distinct = distinct hash of configuration+program+trace among runs with at least one context switch. free-running: distinct = distinct canonical history (operations, results, order of call/return events) with at least one overlapping pair. stress: distinct parameter sets.")
@@ -754,6 +825,7 @@ func main() {
 	nctl := r.N(60000, 3000000)
 	r.CasesProc("ctl", nctl, ev.Opt{Bin: "shim", Procs: 14}, ctlCase)
 	if r.Thorough() {
+		r.Cases("honest-wrap", 6, ev.Opt{MaxCaseSeconds: 3000}, honestWrapCase)
 		r.CasesProc("sweep", sweepN, ev.Opt{Bin: "shim", Procs: 14}, sweepCase)
 	}
 	nfree := r.N(6000, 120000)
